@@ -884,6 +884,9 @@ func (c13) Exec(c string) (string, []Fail) {
 			rep = 1
 		}
 	}
+	if cs.op == "x" && rep > 3 { // every run writes and reads back the table and the GML files: every worker count, three repetitions
+		rep = 3
+	}
 	ref := cs.run(1)
 	if ref != res {
 		fails = append(fails, Fail{"schedule." + cs.op, fmt.Sprintf("workers=%d differs from workers=1: %s", cs.workers, c13Diff(ref, res))})
